@@ -104,7 +104,10 @@ Record geom := mkGeom {
   ghrows : Z;        (* height_in_blocks * DCT_scaled_size: sample rows the IDCT really writes *)
   gfancyv : bool;    (* does its upsampling method read a context row (h2v2/h1v2 fancy) *)
   grg0 : Z;          (* component 0: row-group height *)
-  gdsh0 : Z          (* component 0: downsampled_height *)
+  gdsh0 : Z;         (* component 0: downsampled_height *)
+  (* which variant of jpeg_skip_scanlines the source tree has (generated facts, tools/gen_Scaling.py):
+     repairs of hazards 1, 2, 4 and 6 present in the code *)
+  gfx1 : bool; gfx2 : bool; gfx4 : bool; gfx6 : bool
 }.
 
 Definition gL (g : geom) : Z := gM g * gv g.      (* lines_per_iMCU_row *)
@@ -210,17 +213,29 @@ Fixpoint read_and_discard_s (g : geom) (n : nat) (st : sst) : sst :=
   end.
 
 (* jdapistd.c increment_simple_rowgroup_ctr *)
+Definition set_rtg_now (g : geom) (st : sst) : sst :=
+  mkS (scan st) (bfull st) (rgctr st) (imcu st) (bufrow st) (nro st) (gH g - scan st) (cbuf st) (sfull st) (spare st).
+
 Definition increment_s (g : geom) (st : sst) (rows : Z) : sst :=
   if gmerged g && (gv g =? 2) then read_and_discard_s g (Z.to_nat rows) st
   else
-    let rows_left := rows mod gv g in
-    let st1 := mkS (scan st + (rows - rows_left)) (bfull st) (rgctr st + rows / gv g) (imcu st) (bufrow st)
-                   (nro st) (rtg st) (cbuf st) (sfull st) (spare st) in
+    (* repair of hazard 2: rows still pending in the conversion buffer are read first *)
+    let partial := if gfx2 g && negb (gmerged g) && (nro st <? gv g) then Z.min (gv g - nro st) rows else 0 in
+    let st0 := read_and_discard_s g (Z.to_nat partial) st in
+    let rows0 := rows - partial in
+    let rows_left := rows0 mod gv g in
+    let st1 := mkS (scan st0 + (rows0 - rows_left)) (bfull st0) (rgctr st0 + rows0 / gv g) (imcu st0) (bufrow st0)
+                   (nro st0) (rtg st0) (cbuf st0) (sfull st0) (spare st0) in
+    (* repair of hazard 4 (separate upsampler): rows_to_go follows output_scanline *)
+    let st1 := if gfx4 g && negb (gmerged g) then set_rtg_now g st1 else st1 in
     read_and_discard_s g (Z.to_nat rows_left) st1.
 
 Definition reset_rtg (g : geom) (st : sst) : sst :=
-  if gmerged g then st
-  else mkS (scan st) (bfull st) (rgctr st) (imcu st) (bufrow st) (nro st) (gH g - scan st) (cbuf st) (sfull st) (spare st).
+  if gmerged g then st else set_rtg_now g st.
+
+(* the reset at the end of jpeg_skip_scanlines; repair of hazard 4: also for the merged upsampler *)
+Definition reset_rtg_final (g : geom) (st : sst) : sst :=
+  if gmerged g && negb (gfx4 g) then st else set_rtg_now g st.
 
 (* jdapistd.c _jpeg_skip_scanlines, branch !need_context_rows; returns the new state and the return value *)
 Definition jdim (x : Z) : Z := x mod 4294967296.     (* JDIMENSION arithmetic *)
@@ -234,7 +249,12 @@ Definition skip_s (g : geom) (st : sst) (n : Z) : sst * Z :=
     let la := n - ll in
     if n <? ll then (increment_s g st n, n)
     else
-      let st1 := mkS (scan st + ll) false 0 (imcu st) (bufrow st)
+      (* repair of hazard 1: an iMCU row that an earlier skip entered without decoding it is skipped as a whole *)
+      let rewind := gfx1 g && negb (bfull st) && (0 <? ll) in
+      let scan0 := if rewind then scan st - (L - ll) else scan st in
+      let ll := if rewind then 0 else ll in
+      let la := if rewind then n + (L - ((L - scan st mod L) mod L)) else la in
+      let st1 := mkS (scan0 + ll) false 0 (imcu st) (bufrow st)
                      (if gmerged g then nro st else gv g) (rtg st) (cbuf st) (sfull st) (spare st) in
       let st1 := reset_rtg g st1 in
       let lts := (la / L) * L in
@@ -242,7 +262,7 @@ Definition skip_s (g : geom) (st : sst) (n : Z) : sst * Z :=
       let st2 := mkS (scan st1 + lts) (bfull st1) (rgctr st1) (imcu st1 + lts / L) (bufrow st1)
                      (nro st1) (rtg st1) (cbuf st1) (sfull st1) (spare st1) in
       let st3 := increment_s g st2 ltr in
-      (reset_rtg g st3, n).
+      (reset_rtg_final g st3, n).
 
 (* result of one op: return values (one per library call) and delivered rows *)
 Definition step_s (g : geom) (st : sst) (o : op) : sst * (list Z * list prov) :=
@@ -297,16 +317,23 @@ Definition haz_step (g : geom) (a : astate) (o : op) : Z * astate :=
         let ll := (L - s mod L) mod L in
         if n <? ll then
           if merged2v g then (0, mkA (s + n) false (a_exact a))
-          else if (r =? 0) || (n <? v)
-               then (0, mkA (s + n) (a_pend a && (n mod v =? 0)) (a_exact a && (n <? v)))
-               else (2, a)
-        else if a_pend a then (1, a)
+          else
+            (* with the repair of hazard 2 the rows pending in the conversion buffer are read first *)
+            let p := if gfx2 g && negb (gmerged g) && negb (r =? 0) then Z.min (v - r) n else 0 in
+            let n0 := n - p in
+            if (r =? 0) || (n <? v) || (0 <? p)
+            then (0, mkA (s + n) (a_pend a && (p =? 0) && (n0 mod v =? 0))
+                         (if gfx4 g && negb (gmerged g) then true else a_exact a && (n0 <? v)))
+            else (2, a)
+        else if a_pend a && negb (gfx1 g) then (1, a)
         else if merged2v g && (r =? 1) then (3, a)
         else
-          let la := n - ll in
+          let off := if a_pend a then L - ll else 0 in     (* repaired hazard 1: restart from the first line of the pending row *)
+          let ll := if a_pend a then 0 else ll in
+          let la := n + off - ll in
           let ltr := la mod L in
           (0, mkA (s + n) (negb (merged2v g) && (0 <? ltr) && (ltr mod v =? 0))
-                  (if merged2v g then a_exact a && (ll + (la - ltr) =? 0) else true))
+                  (if merged2v g then gfx4 g || (a_exact a && (ll + (la - ltr) =? 0)) else true))
   end.
 
 (* first hazard of a history (0 = none) *)
@@ -495,10 +522,12 @@ Definition skip_c (g : geom) (st : cst) (n : Z) : cst * Z :=
     let L := gL g in
     let ll := (L - c_scan st mod L) mod L in
     let la := n - ll in
-    if (n <? ll + 1) || ((ll <=? 1) && c_bfull st && (la <? L + 1))
+    (* "the next iMCU row has already been decoded": lines_left <= 1, or with the repair of hazard 6 lines_left < v *)
+    let near := if gfx6 g then ll <? gv g else ll <=? 1 in
+    if (n <? ll + 1) || (near && c_bfull st && (la <? L + 1))
     then (read_and_discard_c g (Z.to_nat n) st, n)
     else
-      let ahead := (ll <=? 1) && c_bfull st in
+      let ahead := near && c_bfull st in
       let scan1 := if ahead then c_scan st + ll + L else c_scan st + ll in
       let la1 := if ahead then la - L else la in
       let st1 := if (c_ictr st =? 0) || ((c_ictr st =? 1) && (2 <? ll)) then set_wraparound g st else st in
@@ -540,7 +569,7 @@ Definition skip_c_hazard (g : geom) (st : cst) (n : Z) : bool :=
     let ll := (L - c_scan st mod L) mod L in
     let la := n - ll in
     if (n <? ll + 1) || ((ll <=? 1) && c_bfull st && (la <? L + 1)) then false
-    else (1 <? ll) && (ll <? gv g) && c_bfull st.
+    else negb (gfx6 g) && (1 <? ll) && (ll <? gv g) && c_bfull st.
 
 Fixpoint first_hazard_c (g : geom) (st : cst) (ops : list op) : Z :=
   match ops with
@@ -614,7 +643,7 @@ Record config := mkCfg {
 (* comps = (h_samp, v_samp) list; ycc3 = YCbCr 3-component frame; rgbout = output colour space is RGB-like;
    grayout = grayscale output requested from a YCbCr frame (components 1.. not needed) *)
 Definition derive_config (chain : list (Z * Z * Z * Z * Z)) (dct W H : Z) (comps : list (Z * Z))
-           (scale_num scale_den : Z) (fancy ycc3 rgbout grayout : bool) : option config :=
+           (scale_num scale_den : Z) (fancy ycc3 rgbout grayout : bool) (f1 f2 f4 f6 : bool) : option config :=
   match core_output_dims chain dct W H scale_num scale_den with
   | None => None
   | Some (ow, oh, M, _) =>
@@ -650,7 +679,7 @@ Definition derive_config (chain : list (Z * Z * Z * Z * Z)) (dct W H : Z) (comps
       Some (mkCfg ow oh M hmax vmax merged ctx bad dcts
               (mkGeom M vmax oh (jdiv_round_up H (vmax * dct)) merged ctx
                       (rg_of tc) (dsh_of tc) (hrows_of tc)
-                      (is_ctx_method (nth (Z.to_nat idx) methods UNoop)) (rg_of c0) (dsh_of c0)))
+                      (is_ctx_method (nth (Z.to_nat idx) methods UNoop)) (rg_of c0) (dsh_of c0) f1 f2 f4 f6))
   end.
 
 (* hazard 5: jpeg_crop_scanline calls jinit_upsampler(no_alloc) when a component's new downsampled_width
